@@ -246,9 +246,11 @@ make_lm_objective(const LmProblem& pr, const shared_ptr<lm::SimListModeData>& sr
   obj->set_recompute_sensitivity(true);
   obj->set_num_subsets(pr.num_subsets);
   obj->set_skip_balanced_subsets(true);
+  // always a private cache directory: the first set_up without caching sets the object's cache size to 1000000, so a SECOND
+  // set_up of the same object switches to file caching and would write my_CACHE*.bin into the current working directory
+  obj->set_cache_path(cache_dir);
   if (cache_size > 0)
     {
-      obj->set_cache_path(cache_dir);
       obj->set_cache_max_size((unsigned long)cache_size);
       obj->set_recompute_cache(recompute_cache);
     }
